@@ -14,6 +14,7 @@ From CG Require Import Model.Quote.
 From CG Require Import Spec.ShellDQ.
 From CG Require Import Model.Tables.
 From CG Require Import Model.EmitBash.
+From CG Require Import Spec.ScriptRead.
 (* add new Require lines above this line *)
 Require Import ExtrOcamlBasic ExtrOcamlString.
 Extraction Language OCaml.
@@ -36,5 +37,6 @@ Separate Extraction
   Tables.valid_orders
   Tables.isomorphic_to
   EmitBash.script_of_dfa
+  ScriptRead.read_stmts
   (* add new roots above this line *)
   Prelude.pow2.
